@@ -818,3 +818,11 @@ def block_cursor_over_moved_statements(r):
         return False
     pr = str((r.get("detail") or {}).get("problem"))
     return pr.startswith("block forwarding raised AssertionError") or pr.startswith("block forwarding raised IndexError") or pr.startswith("forwarded block does not contain")
+
+
+def c17_generated_name_not_reserved(r):
+    return r.get("property") == "C17" and r.get("kind") == "mismatch"
+
+
+def c06_wrap_block_index(r):
+    return r.get("property") == "C06" and str((r.get("detail") or {}).get("problem", "")).startswith("block forwarding raised IndexError")
